@@ -434,7 +434,7 @@ func TestC27(t *testing.T) {
 		return false
 	}
 
-	rt.Check(t, rec, "arith", 40000, 1500000, func(t *rapid.T) {
+	rt.Check(t, rec, "arith", 30000, 1500000, func(t *rapid.T) {
 		xs, ys, cls := genPair(t)
 		xd, x := xs.build()
 		yd, y := ys.build()
@@ -471,6 +471,11 @@ func TestC27(t *testing.T) {
 			nt := finite && v.class != "exact" || finite && (op == '*' || op == '/' || xs.e != ys.e)
 			rec.Case(nt, canon)
 			rec.Label(fmt.Sprintf("op%c_%s", op, ulpClass(v)))
+			if r := dnumOp(op, xd, yd); finite && !r.IsInf() && r.Coef() == p10u[15] && v.class != "exact" {
+				// a rounded result whose coefficient is a power of ten: rounding carried
+				// into a new leading digit (or stopped exactly on it)
+				rec.Label(fmt.Sprintf("op%c_rounded_to_power_of_ten", op))
+			}
 			if finite && (op == '+' || op == '-') {
 				d := xs.e - ys.e
 				if d < 0 {
@@ -493,7 +498,7 @@ func TestC27(t *testing.T) {
 		}
 	})
 
-	rt.Check(t, rec, "string", 20000, 800000, func(t *rapid.T) {
+	rt.Check(t, rec, "string", 15000, 800000, func(t *rapid.T) {
 		xs := genDspec(t, "x")
 		d, x := xs.build()
 		if d.Sign() != 0 && !d.IsInf() && d.Exp() == -128 {
@@ -528,7 +533,7 @@ func TestC27(t *testing.T) {
 	})
 
 	// dnum.New itself: normalisation and rounding of 1..19 digit coefficients
-	rt.Check(t, rec, "new", 20000, 800000, func(t *rapid.T) {
+	rt.Check(t, rec, "new", 15000, 800000, func(t *rapid.T) {
 		var coef uint64
 		switch gen.Uniform(t, "ncls", 5) {
 		case 4: // sixteen 9s followed by 1..3 more digits: rounding carries to 10^16
